@@ -139,6 +139,8 @@ func blockRows(svc string, b *fakech.Block) []map[string]any {
 	return rows
 }
 
+var unanswered int64
+
 type scenarioCfg struct {
 	Workers, Attempts, Clients, ReqsPerClient int
 	MaxQueue                                  int64
@@ -163,6 +165,13 @@ func runScenario(rec *recorder, sc scenarioCfg, rnd *rand.Rand, reqBase int) int
 			time.Sleep(time.Duration(1+int(rf()*4)) * time.Millisecond)
 		}
 		if rf() < sc.PErr {
+			// (no "dial tcp: lookup ... i/o timeout": the product's watchdog exits the process on that one by design)
+			switch int(rf() * 3) {
+			case 0:
+				return fmt.Errorf("write tcp 10.0.0.5:43210->10.0.0.9:9000: write: connection reset by peer")
+			case 1:
+				return fmt.Errorf("json parse error: unexpected end of stream (reported by the server)")
+			}
 			return fmt.Errorf("code: 241, message: Memory limit (total) exceeded")
 		}
 		return nil
@@ -247,7 +256,16 @@ func runScenario(rec *recorder, sc scenarioCfg, rnd *rand.Rand, reqBase int) int
 				req := httptest.NewRequest("POST", "/loki/api/v1/push", bytes.NewBufferString(body))
 				req.Header.Set("Content-Type", "application/json")
 				rw := httptest.NewRecorder()
-				handler(rw, req)
+				answered := make(chan struct{})
+				go func() { handler(rw, req); close(answered) }()
+				select {
+				case <-answered:
+				case <-time.After(15 * time.Second):
+					// the database keeps answering (every Do returns) but this request got no answer
+					rec.emit(Event{"ev": "Unanswered", "r": rid})
+					atomic.AddInt64(&unanswered, 1)
+					continue
+				}
 				class := "err"
 				if rw.Code >= 200 && rw.Code < 300 {
 					class = "2xx"
@@ -351,7 +369,7 @@ func main() {
 	f.Close()
 	if *meta != "" {
 		b, _ := json.Marshal(map[string]any{"events": len(rec.events), "max_reqs": maxReq, "scenarios": *scenarios, "requests": total,
-			"workers": *workers, "attempts": *attempts})
+			"workers": *workers, "attempts": *attempts, "unanswered": atomic.LoadInt64(&unanswered)})
 		os.WriteFile(*meta, b, 0644)
 	}
 	_ = http.StatusOK
